@@ -383,7 +383,12 @@ def main():
     ap.add_argument("--jobs", type=int, default=int(os.environ.get("VERIF_JOBS", "0")))
     args = ap.parse_args()
     prop = args.prop
-    tier = args.tier if args.tier in ("quick", "thorough") else "quick"
+    # "experimental": obligations that are written down but do not finish under CBMC (kept for the
+    # record and for --only runs); they belong to neither registered tier, so that an unchanged
+    # tree never makes a registered command exit non-zero because the verifier gave up.
+    tier = args.tier if args.tier in ("quick", "thorough", "experimental") else "quick"
+    if tier == "experimental":
+        args.no_evidence = True  # the evidence schema knows the two registered tiers only
     seed = int(os.environ.get("VERIF_SEED", "0") or 0)
     t0 = time.time()
     cfg, cdir = load_cfg(prop)
@@ -400,11 +405,17 @@ def main():
     if args.replay:
         return do_replay_file(args.replay, cfg, cdir, logf)
 
-    harnesses = [dict(h) for h in cfg.get("harness", [])
-                 if tier == "thorough" or h.get("tier", "quick") == "quick"]
+    def in_tier(h):
+        t = h.get("tier", "quick")
+        if tier == "experimental":
+            return True
+        if t == "experimental":
+            return False
+        return tier == "thorough" or t == "quick"
+    harnesses = [dict(h) for h in cfg.get("harness", []) if in_tier(h)]
     if args.only:
         only = set(args.only.split(","))
-        harnesses = [h for h in harnesses if h["name"] in only]
+        harnesses = [dict(h) for h in cfg.get("harness", []) if h["name"] in only]
     jobs = args.jobs or int(cfg.get("jobs", 8))
 
     undecided = []
